@@ -1,7 +1,9 @@
 /-
 Props/C12 — hybrid boot data.
-  * `calc_cc_spec`: for every geometry and image size the padding is less than a cylinder and pads the image to a
-    whole number of cylinders; the cylinder count is the padded size in cylinders, capped at 1024;
+  * `calc_cc_spec`: for every geometry and image size the padding pads the image to a whole number of cylinders; it is
+    less than a cylinder without EFI, and with EFI it is the smallest such padding that holds the backup GPT
+    (`backup_gpt_in_padding`: the backup GPT never overlaps the ISO); the cylinder count is the padded size in
+    cylinders, capped at 1024;
   * `calc_cc_tie`: `IsoHybrid._calc_cc`, regenerated from isohybrid.py on every run, is that function;
   * `crc32_tie` (Props/Tie): isohybrid.crc32 (table regenerated) is the bit-by-bit reflected CRC-32 for every byte string —
     the checksum of GPT headers and partition arrays;
@@ -12,30 +14,73 @@ import Pycdlib.Model.Hybrid
 import Pycdlib.Props.Tie
 namespace Pycdlib.Hybrid
 
-theorem calc_cc_spec (isoSize heads sectors : Nat) (hc : 0 < heads * sectors * 512) :
+theorem calc_cc_spec (isoSize heads sectors : Nat) (efi : Bool) (hc : 0 < heads * sectors * 512) :
     let c := heads * sectors * 512
-    (calcCc isoSize heads sectors).2 < c ∧
-    (isoSize + (calcCc isoSize heads sectors).2) % c = 0 ∧
-    (calcCc isoSize heads sectors).1 = min ((isoSize + (calcCc isoSize heads sectors).2) / c) 1024 := by
+    let r := calcCc isoSize heads sectors efi
+    (isoSize + r.2) % c = 0 ∧
+    r.1 = min ((isoSize + r.2) / c) 1024 ∧
+    (efi = false → r.2 < c) ∧
+    (efi = true → gptBackup ≤ r.2 ∧ r.2 < gptBackup + c) := by
   simp only [calcCc]
   generalize heads * sectors * 512 = c at hc
   have hlt : isoSize % c < c := Nat.mod_lt _ hc
   have hdm := Nat.div_add_mod isoSize c
-  by_cases hf : isoSize % c > 0
-  · simp only [hf, if_true]
-    refine ⟨by omega, ?_, trivial⟩
-    have e : isoSize + (c - isoSize % c) = c * (isoSize / c) + c := by omega
-    rw [e, Nat.add_mod, Nat.mul_mod_right, Nat.mod_self]; simp
-  · have h0 : isoSize % c = 0 := by omega
-    simp only [hf, if_false, Nat.add_zero]
-    exact ⟨hc, h0, trivial⟩
+  -- the plain padding
+  generalize hp : (if isoSize % c > 0 then c - isoSize % c else 0) = p
+  have hp0 : (isoSize + p) % c = 0 ∧ p < c := by
+    subst hp
+    by_cases hf : isoSize % c > 0
+    · simp only [hf, if_true]
+      refine ⟨?_, by omega⟩
+      have e : isoSize + (c - isoSize % c) = c * (isoSize / c) + c := by omega
+      rw [e, Nat.add_mod, Nat.mul_mod_right, Nat.mod_self]; simp
+    · have h0 : isoSize % c = 0 := by omega
+      simp only [hf, if_false, Nat.add_zero]
+      exact ⟨h0, hc⟩
+  cases efi with
+  | false =>
+    simp only [Bool.false_and, Bool.false_eq_true, if_false]
+    refine ⟨hp0.1, trivial, ?_, ?_⟩
+    · intro _; exact hp0.2
+    · intro h; simp at h
+  | true =>
+    simp only [Bool.true_and, decide_eq_true_eq]
+    by_cases hs : p < gptBackup
+    · simp only [hs, if_true]
+      generalize hk : (gptBackup - p + c - 1) / c = k
+      have hk1 : k * c ≥ gptBackup - p := by
+        have := Nat.div_add_mod (gptBackup - p + c - 1) c
+        have hm : (gptBackup - p + c - 1) % c < c := Nat.mod_lt _ hc
+        rw [hk] at this
+        have : c * k = k * c := Nat.mul_comm _ _
+        omega
+      have hk2 : k * c < gptBackup - p + c := by
+        have := Nat.div_add_mod (gptBackup - p + c - 1) c
+        rw [hk] at this
+        have : c * k = k * c := Nat.mul_comm _ _
+        omega
+      refine ⟨?_, trivial, fun h => by simp at h, fun _ => ⟨by omega, by omega⟩⟩
+      rw [← Nat.add_assoc, Nat.add_mul_mod_self_right]
+      exact hp0.1
+    · simp only [hs, if_false]
+      exact ⟨hp0.1, trivial, fun h => by simp at h, fun _ => ⟨by omega, by omega⟩⟩
 
+/-- **the backup GPT never overlaps the ISO**: with EFI the 33 sectors before the end of the padded image start at
+or after the end of the ISO data -/
+theorem backup_gpt_in_padding (isoSize heads sectors : Nat) (hc : 0 < heads * sectors * 512) :
+    isoSize ≤ isoSize + (calcCc isoSize heads sectors true).2 - gptBackup := by
+  have := (calc_cc_spec isoSize heads sectors true hc).2.2.2 rfl
+  omega
+
+set_option maxRecDepth 8000 in
 /-- tie to the regenerated `_calc_cc` -/
-theorem calc_cc_tie (isoSize heads sectors : Nat) (hc : 0 < heads * sectors * 512) :
-    Generated.calc_cc isoSize heads sectors =
-      ((((calcCc isoSize heads sectors).1 : Nat) : Int), (((calcCc isoSize heads sectors).2 : Nat) : Int)) := by
+theorem calc_cc_tie (isoSize heads sectors : Nat) (efi : Bool) (hc : 0 < heads * sectors * 512) :
+    Generated.calc_cc isoSize heads sectors (if efi then 1 else 0) =
+      ((((calcCc isoSize heads sectors efi).1 : Nat) : Int), (((calcCc isoSize heads sectors efi).2 : Nat) : Int)) := by
   unfold Generated.calc_cc PyOps.pyMod PyOps.pyFloorDiv calcCc
   simp only
+  have hg : gptBackup = 33 * 512 := rfl
+  rw [hg]
   have hc' : ((heads : Int) * (sectors : Int)) * (512 : Int) = ((heads * sectors * 512 : Nat) : Int) := by
     rw [Int.natCast_mul, Int.natCast_mul]; rfl
   rw [hc']
@@ -44,27 +89,40 @@ theorem calc_cc_tie (isoSize heads sectors : Nat) (hc : 0 < heads * sectors * 51
   rw [Int.fmod_eq_emod_of_nonneg _ hnn]
   have hmod : (isoSize : Int) % (c : Int) = ((isoSize % c : Nat) : Int) := (Int.natCast_emod isoSize c).symm
   rw [hmod]
-  by_cases hf : isoSize % c > 0
-  · have hf' : ((isoSize % c : Nat) : Int) > 0 := by omega
-    simp only [hf', decide_true, if_true, hf]
-    have hle : isoSize % c ≤ c := Nat.le_of_lt (Nat.mod_lt _ hc)
-    have hsub : (c : Int) - ((isoSize % c : Nat) : Int) = ((c - isoSize % c : Nat) : Int) := by omega
-    rw [hsub]
-    have hadd : (isoSize : Int) + ((c - isoSize % c : Nat) : Int) = ((isoSize + (c - isoSize % c) : Nat) : Int) := by omega
-    rw [hadd, Int.fdiv_eq_ediv_of_nonneg _ hnn]
-    have hdiv : ((isoSize + (c - isoSize % c) : Nat) : Int) / (c : Int) = (((isoSize + (c - isoSize % c)) / c : Nat) : Int) :=
-      (Int.natCast_ediv _ _).symm
-    rw [hdiv]
-    congr 1
-    omega
-  · have hf' : ¬ (((isoSize % c : Nat) : Int) > 0) := by omega
-    simp only [hf', decide_false, hf, if_false, Bool.false_eq_true]
-    have hadd : (isoSize : Int) + (0 : Int) = ((isoSize + 0 : Nat) : Int) := by omega
-    rw [hadd, Int.fdiv_eq_ediv_of_nonneg _ hnn]
-    have hdiv : ((isoSize + 0 : Nat) : Int) / (c : Int) = (((isoSize + 0) / c : Nat) : Int) := (Int.natCast_ediv _ _).symm
-    rw [hdiv]
-    congr 1
-    omega
+  have hlt : isoSize % c < c := Nat.mod_lt _ hc
+  -- first stage: the plain padding, as a natural number on both sides
+  have h1 : (if decide (((isoSize % c : Nat) : Int) > 0) = true then (c : Int) - ((isoSize % c : Nat) : Int) else (0 : Int)) =
+      (((if isoSize % c > 0 then c - isoSize % c else 0 : Nat)) : Int) := by
+    by_cases hf : isoSize % c > 0
+    · have hf' : ((isoSize % c : Nat) : Int) > 0 := by omega
+      simp only [hf', decide_true, if_true, hf]; omega
+    · have hf' : ¬ (((isoSize % c : Nat) : Int) > 0) := by omega
+      simp only [hf', decide_false, hf, if_false, Bool.false_eq_true]; rfl
+  rw [h1]
+  generalize (if isoSize % c > 0 then c - isoSize % c else 0) = p
+  -- second stage
+  have h2 : (if (decide ((if efi then (1 : Int) else 0) ≠ 0) && decide ((p : Int) < (33 : Int) * (512 : Int))) = true
+      then (p : Int) + Int.fdiv ((33 : Int) * 512 - (p : Int) + (c : Int) - 1) (c : Int) * (c : Int) else (p : Int)) =
+      (((if (efi && decide (p < 33 * 512)) = true then p + (33 * 512 - p + c - 1) / c * c else p : Nat)) : Int) := by
+    cases efi with
+    | false => simp
+    | true =>
+      by_cases hs : p < 33 * 512
+      · have hs' : (p : Int) < (33 : Int) * 512 := by omega
+        simp only [if_true, ne_eq, Int.reduceEq, not_false_eq_true, decide_true, Bool.true_and, hs', hs]
+        have hnum : (33 : Int) * 512 - (p : Int) + (c : Int) - 1 = ((33 * 512 - p + c - 1 : Nat) : Int) := by omega
+        rw [hnum, Int.fdiv_eq_ediv_of_nonneg _ hnn, ← Int.natCast_ediv]
+        push_cast; rfl
+      · have hs' : ¬ ((p : Int) < (33 : Int) * 512) := by omega
+        simp only [hs, decide_false, Bool.and_false, Bool.false_eq_true, if_false]
+        have hlt' : ¬ ((p : Int) < 16896) := by omega
+        simp only [Int.reduceMul, hlt', decide_false, Bool.and_false, Bool.false_eq_true, if_false]
+  rw [h2]
+  generalize (if (efi && decide (p < 33 * 512)) = true then p + (33 * 512 - p + c - 1) / c * c else p) = q
+  have hadd : (isoSize : Int) + (q : Int) = ((isoSize + q : Nat) : Int) := by omega
+  rw [hadd, Int.fdiv_eq_ediv_of_nonneg _ hnn, ← Int.natCast_ediv]
+  congr 1
+  omega
 
 /-- a partition derived from an El Torito entry covers exactly its `count` sectors, at four times its sector -/
 theorem part_covers (extent count : Nat) (h : 0 < count) :
@@ -77,6 +135,7 @@ theorem mbr_rba (extent : Nat) : mbrRba extent = 4 * extent := by unfold mbrRba;
 theorem psize_eq (cc heads sectors offset : Nat) : (endFields cc heads sectors offset).2.2.2 = cc * heads * sectors - offset := rfl
 
 /-- non-vacuity: 64 heads x 32 sectors, 1 000 000 bytes -/
-example : calcCc 1000000 64 32 = (1, 48576) := by decide
+example : calcCc 1000000 64 32 false = (1, 48576) := by decide
+example : calcCc 1048000 64 32 true = (2, 1049152) := by decide
 
 end Pycdlib.Hybrid
